@@ -19,9 +19,9 @@ pub struct Menu {
 }
 
 pub fn menu() -> Menu {
-    let klens = [1usize, 2, 3, 4, 5, 8, 17, 56, 72];
+    let klens = [1usize, 2, 3, 4, 5, 8, 17, 56, 72, 73, 100];
     let keys = klens.iter().enumerate().map(|(i, &l)| if i == 0 { vec![0u8; l] } else { al::distinct_bytes(l, i as u8) }).collect();
-    let slens = [1usize, 3, 4, 15, 16, 17, 32];
+    let slens = [1usize, 3, 4, 15, 16, 17, 32, 72, 73, 100];
     let mut salts: Vec<Vec<u8>> = slens.iter().enumerate().map(|(i, &l)| al::dense(l, 100, i as u64)).collect();
     salts.push(vec![0u8; 16]); // all-zero salt
     salts.push(vec![0u8; 5]);
@@ -29,7 +29,7 @@ pub fn menu() -> Menu {
 }
 
 /// action encoding: 0 init | 1+k expand(key k) | 32 + s*4 + kk salted(salt s, key kk in {0,4,7}) | 200+w encrypt(words w)
-const SALT_KEYS: [usize; 3] = [0, 4, 7];
+const SALT_KEYS: [usize; 4] = [0, 4, 7, 10];
 pub fn describe(m: &Menu, a: u8) -> String {
     match a {
         0 => "state = bc_init_state()".into(),
@@ -265,7 +265,19 @@ pub fn run(ctx: &Ctx, rep: &mut Report) {
     rep.count("histories", states);
     rep.count("transitions", states.saturating_sub(1));
     rep.count("depth_bound", depth as u64);
-    rep.sample(json!({"history":["salted_expand_key(salt[17B], key[5B])","bc_expand_key(key[72B])","bc_encrypt([0,0])"],"menu":{"keys":9,"salts":9,"salted pairs":27,"encrypt words":3},
+    let example: Vec<String> = {
+        let mut st: Vec<u8> = Vec::new();
+        loop {
+            let mut acts = Vec::new();
+            checker.model().actions(&st, &mut acts);
+            match acts.get(acts.len().saturating_sub(1 + 5 * st.len())) {
+                Some(&a) => st.push(a),
+                None => break,
+            }
+        }
+        st.iter().map(|&a| describe(&checker.model().menu, a)).collect()
+    };
+    rep.sample(json!({"history":example,"menu":{"keys":11,"salts":12,"salted pairs":48,"encrypt words":3},
         "check":"after every step: 1042 raw state words equal the reference state and 1027 bc_encrypt probes agree"}));
     for (_n, path) in checker.discoveries() {
         let hist = path.last_state().clone();
